@@ -23,14 +23,26 @@ def run_timeout(seconds: float, func, *args, **kwargs):
         # Private signal: a TimeoutError raised by the function itself should reach the caller unchanged
         pass
 
+    def _run_func():
+        # The pool only passes on exceptions deriving from Exception: if the function fails with another exception
+        # (e.g. KeyboardInterrupt, SystemExit) the worker thread would die and the result would never arrive
+        try:
+            return True, func(*args, **kwargs)
+        except BaseException as e:
+            return False, e
+
     def _inner_run():
         with multiprocessing.pool.ThreadPool(processes=1) as pool:
             thread = pool.apply(lambda: threading.current_thread())
 
             try:
-                return pool.apply_async(func, args, kwargs).get(timeout=seconds)
+                success, result = pool.apply_async(_run_func).get(timeout=seconds)
             except multiprocessing.TimeoutError:
                 pass
+            else:
+                if success:
+                    return result
+                raise result
 
         if thread.is_alive():
             ctypes.pythonapi.PyThreadState_SetAsyncExc(
